@@ -28,7 +28,7 @@ package standard
 //@ func (*Service).checkAccess
 //@ requires s != nil
 //@ ensures [verdict] result == core.ResultSucceeded || result == core.ResultDenied || result == core.ResultFailed
-//@ modifies checkedset
+//@ modifies checkedset, deniedset
 //@ ensures [checked] result == core.ResultSucceeded ==> credentials != nil && (credentials.Client + "|" + accountName + "|" + action) in checkedset
 //@ ensures [monotone] forall k string :: old(k in checkedset) ==> k in checkedset
 
@@ -39,7 +39,7 @@ package standard
 
 //@ func (*Service).preCheck
 //@ requires s != nil
-//@ modifies checkedset
+//@ modifies checkedset, deniedset
 //@ ensures [unlocked] result2 == core.ResultSucceeded ==> (!implements(result1, "e2wtypes.AccountLocker") || wasUnlocked(result1) || unlockOk(s.unlocker, result1))
 //@ ensures [ok] result2 == core.ResultSucceeded ==> result0 != nil && result1 != nil && result1 == resolved(s, name, pubKey) && result0 == walletOf(result1) && credentials != nil && ckey(credentials.Client, nameOf(result0), nameOf(result1), action) in checkedset
 //@ ensures [none] result2 != core.ResultSucceeded ==> result0 == nil && result1 == nil
@@ -50,7 +50,7 @@ package standard
 //@ requires s != nil
 //@ requires [domaincap] data != nil ==> data.Domain == nil || cap(data.Domain) >= 4
 //@ requires [unlocked] !prelocked && (forall k [48]byte :: !held[k])
-//@ modifies tokroot, db, checkedset, held, prelocked
+//@ modifies tokroot, db, checkedset, deniedset, held, prelocked
 //@ ensures [released] !prelocked && (forall k [48]byte :: !held[k])
 //@ ensures [failclosed] (result0 == core.ResultSucceeded) <==> (result1 != nil)
 //@ ensures [exact] result0 == core.ResultSucceeded ==> data != nil && validSig(pkOfAcc(resolved(s, accountName, pubKey)), attRootOf(data), bytes(result1))
@@ -71,7 +71,7 @@ package standard
 //@ requires s != nil
 //@ requires [domaincap] data != nil ==> data.Domain == nil || cap(data.Domain) >= 4
 //@ requires [unlocked] !prelocked && (forall k [48]byte :: !held[k])
-//@ modifies tokroot, db, checkedset, held, prelocked
+//@ modifies tokroot, db, checkedset, deniedset, held, prelocked
 //@ ensures [released] !prelocked && (forall k [48]byte :: !held[k])
 //@ ensures [failclosed] (result0 == core.ResultSucceeded) <==> (result1 != nil)
 //@ ensures [exact] result0 == core.ResultSucceeded ==> data != nil && validSig(pkOfAcc(resolved(s, accountName, pubKey)), propRootOf(data), bytes(result1))
@@ -92,7 +92,7 @@ package standard
 //@ requires s != nil
 //@ requires [domaincap] data != nil ==> data.Domain == nil || cap(data.Domain) >= 4
 //@ requires [unlocked] !prelocked && (forall k [48]byte :: !held[k])
-//@ modifies tokroot, db, checkedset, held, prelocked
+//@ modifies tokroot, db, checkedset, deniedset, held, prelocked
 //@ ensures [released] !prelocked && (forall k [48]byte :: !held[k])
 //@ ensures [failclosed] (result0 == core.ResultSucceeded) <==> (result1 != nil)
 //@ ensures [exact] result0 == core.ResultSucceeded ==> data != nil && validSig(pkOfAcc(resolved(s, accountName, pubKey)), genRootOf(data), bytes(result1))
@@ -125,7 +125,7 @@ package standard
 //@ requires [extent] 0 <= offset && entries >= 1 && offset + entries <= len(rulesData)
 //@ requires [lens] len(accounts) == len(rulesData) && len(rulesData) <= len(results) && len(rulesData) <= len(data)
 //@ requires [blank] forall j int :: offset <= j && j < offset + entries ==> rulesData[j] == nil
-//@ modifies checkedset, results[offset:offset+entries], rulesData[offset:offset+entries], accounts[offset:offset+entries]
+//@ modifies checkedset, deniedset, results[offset:offset+entries], rulesData[offset:offset+entries], accounts[offset:offset+entries]
 //@ ensures-each [ok] rulesData[i] != nil ==> results[i] == old(results[i]) && prechecked(s, credentials.Client, rulesData[i], accounts[i], nameAt(accountNames, i), keyAt(pubKeys, i), ruler.ActionSignBeaconAttestation) && hastype(rulesData[i].Data, "*rules.SignBeaconAttestationData") && unbox(rulesData[i].Data, "*rules.SignBeaconAttestationData") == data[i]
 //@ ensures-each [failed] rulesData[i] == nil ==> results[i] == core.ResultDenied || results[i] == core.ResultFailed
 //@ loop #1
@@ -176,7 +176,7 @@ package standard
 //@ requires [lens] len(accountNames) <= len(data) && len(pubKeys) <= len(data)
 //@ requires [domaincap] forall j int :: 0 <= j && j < len(data) && data[j] != nil ==> data[j].Domain == nil || cap(data[j].Domain) >= 4
 //@ requires [unlocked] !prelocked && (forall k [48]byte :: !held[k])
-//@ modifies tokroot, db, checkedset, held, prelocked
+//@ modifies tokroot, db, checkedset, deniedset, held, prelocked
 //@ ensures [released] !prelocked && (forall k [48]byte :: !held[k])
 //@ ensures [len] len(result0) >= 1 && (len(result1) == 0 || len(result1) == len(result0)) && (len(data) > 0 ==> len(result0) == len(data))
 //@ ensures [failclosed] forall i int :: 0 <= i && i < len(result0) ==> ((result0[i] == core.ResultSucceeded) <==> (i < len(result1) && result1[i] != nil))
@@ -206,7 +206,7 @@ package standard
 //@ requires [extent] 0 <= offset && entries >= 1 && offset + entries <= len(rulesData)
 //@ requires [lens] len(accounts) == len(rulesData) && len(rulesData) <= len(results) && len(rulesData) <= len(data)
 //@ requires [blank] forall j int :: offset <= j && j < offset + entries ==> rulesData[j] == nil
-//@ modifies checkedset, results[offset:offset+entries], rulesData[offset:offset+entries], accounts[offset:offset+entries]
+//@ modifies checkedset, deniedset, results[offset:offset+entries], rulesData[offset:offset+entries], accounts[offset:offset+entries]
 //@ ensures-each [ok] rulesData[i] != nil ==> results[i] == old(results[i]) && prechecked(s, credentials.Client, rulesData[i], accounts[i], nameAt(accountNames, i), keyAt(pubKeys, i), ruler.ActionSign) && hastype(rulesData[i].Data, "*rules.SignData") && unbox(rulesData[i].Data, "*rules.SignData") == data[i]
 //@ ensures-each [failed] rulesData[i] == nil ==> results[i] == core.ResultDenied || results[i] == core.ResultFailed
 //@ loop #1
@@ -252,7 +252,7 @@ package standard
 //@ requires [lens] len(accountNames) <= len(data) && len(pubKeys) <= len(data)
 //@ requires [domaincap] forall j int :: 0 <= j && j < len(data) && data[j] != nil ==> data[j].Domain == nil || cap(data[j].Domain) >= 4
 //@ requires [unlocked] !prelocked && (forall k [48]byte :: !held[k])
-//@ modifies tokroot, db, checkedset, held, prelocked
+//@ modifies tokroot, db, checkedset, deniedset, held, prelocked
 //@ ensures [released] !prelocked && (forall k [48]byte :: !held[k])
 //@ ensures [len] len(result0) >= 1 && (len(result1) == 0 || len(result1) == len(result0)) && (len(data) > 0 ==> len(result0) == len(data))
 //@ ensures [failclosed] forall i int :: 0 <= i && i < len(result0) ==> ((result0[i] == core.ResultSucceeded) <==> (i < len(result1) && result1[i] != nil))
